@@ -201,7 +201,7 @@ def run(ctx):
         for ind in (INDENTS if not quick else ind_a):
             jobs.append(("single", "function", list(b), ind, True))
     if not quick:
-        for b in itertools.product(CORE[:8], repeat=4):
+        for b in itertools.product(ATOMS, repeat=4):
             for ind in ("", "  ", "      ", "\t"):
                 jobs.append(("single", "function", list(b), ind, True))
     na = len(jobs)
